@@ -14,7 +14,8 @@ type T1 struct {
 type T2 struct {
 	Name  string
 	Count int
-	Flag  bool `yaml:"flag,omitempty"`
+	Flag  bool   `yaml:"flag,omitempty"`
+	Opt   string `yaml:",omitempty"` // options only: the key is still the lower-cased name
 }
 
 type T3 struct {
@@ -36,19 +37,21 @@ type T4 struct {
 type T5 struct {
 	A    string         `yaml:"a"`
 	Skip string         `yaml:"-"`
+	Num  int            `yaml:",omitempty"`
 	Rest map[string]any `yaml:",inline"`
 }
 
 type T6 struct {
-	A     string            `yaml:"a,omitempty"`
-	Other int               `yaml:"other"`
-	Rest  map[string]string `yaml:",inline"`
+	A        string            `yaml:"a,omitempty"`
+	Other    int               `yaml:"other"`
+	Disabled bool              `yaml:",omitempty"`
+	Rest     map[string]string `yaml:",inline"`
 }
 
 type T7 struct {
-	Items  []T1          `yaml:"items"`
-	ByName map[string]T1 `yaml:"by_name"`
-	Ptrs   []*T1         `yaml:"ptrs"`
+	Items  []T1                `yaml:"items"`
+	ByName map[string]T1       `yaml:"by_name"`
+	Ptrs   []*T1               `yaml:"ptrs"`
 	Deep   map[string][]string `yaml:"deep"`
 }
 
